@@ -988,9 +988,43 @@ Definition cross_probes : list probe := [
     "0,undefined"
 ].
 
+(* Probes that report the list of failing sub-checks (expected: none).
+   own:first.operations - 13.2 steps 16-18, 15.3.5.2, 8.12.9, 15.2.3.8-10: a function made by a
+     declaration / expression / Function() / new Function() / an object-literal get, set or
+     method has its own prototype {writable unless frozen, !enumerable, !configurable} with the
+     constructor back-link, its own length, and constructs instances of itself, WHATEVER the
+     first one or two operations on it are: preventExtensions, seal, freeze,
+     getOwnPropertyNames, keys, hasOwnProperty / in / delete of prototype, length, caller,
+     defineProperty of prototype (partial, or a new value, which then is the prototype),
+     assignment to prototype, isFrozen, new, instanceof, propertyIsEnumerable - every ordered
+     pair of these 20 operations on 4 kinds of function and every single first operation on 9.
+   own:bind.targets - 15.3.4.5 steps 16-17: bind over every kind of callable (script functions,
+     natives, eval, bound and twice-bound functions, Function.prototype itself, every built-in
+     constructor, accessor functions, prototype methods) gives a function whose [[Class]] is
+     Function, whose [[Prototype]] is THIS runtime's Function.prototype, extensible, with
+     call/apply/bind, a valid own length; Function.prototype.bind(null) is a working no-op.
+   own:reachable.functions - every function object reachable from a function instance (the
+     get/set of accessor-valued caller/arguments, the function itself, arguments.callee, the
+     get of an Error's stack where an implementation has one) inherits from THIS runtime's
+     Function.prototype, prototype objects from this runtime's Object.prototype, a poisoned
+     accessor throws this runtime's TypeError.
+   They run in every configuration and history, and in the cross-runtime history after another
+   runtime of the process ran them first (second, third ... runtime of the process, copies). *)
+Definition ownership_probes : list probe := [
+  P "own:first.operations"
+    "(function(){ var gOPD=Object.getOwnPropertyDescriptor, bad=[]; var makers=[ ['decl0',function(){function d(){} return d},0], ['decl2',function(){function d(a,b){} return d},2], ['expr1',function(){return function(a){}},1], ['named3',function(){return function n(a,b,c){}},3], ['Function2',function(){return Function('a','b','return a')},2], ['newFunction0',function(){return new Function('return 1')},0], ['getter0',function(){return gOPD({get x(){return 1}},'x').get},0], ['setter1',function(){return gOPD({set x(v){}},'x').set},1], ['method1',function(){return {m:function(a){}}.m},1] ]; var ops=[ ['preventExtensions',function(F,st){Object.preventExtensions(F)}], ['seal',function(F,st){Object.seal(F)}], ['freeze',function(F,st){Object.freeze(F);st.frozen=true}], ['names',function(F,st){Object.getOwnPropertyNames(F)}], ['keys',function(F,st){Object.keys(F)}], ['hasOwn.prototype',function(F,st){F.hasOwnProperty('prototype')}], ['in.prototype',function(F,st){'prototype' in F}], ['delete.prototype',function(F,st){delete F.prototype}], ['delete.length',function(F,st){delete F.length}], ['hasOwn.length',function(F,st){F.hasOwnProperty('length')}], ['in.caller',function(F,st){'caller' in F;'arguments' in F}], ['define.prototype.partial',function(F,st){Object.defineProperty(F,'prototype',{enumerable:false})}], ['define.prototype.value',function(F,st){var P={mark:1};Object.defineProperty(F,'prototype',{value:P});st.P=P}], ['assign.prototype',function(F,st){var P={mark:2};F.prototype=P;if(!st.frozen)st.P=P}], ['define.length.same',function(F,st){Object.defineProperty(F,'length',{writable:false})}], ['define.other',function(F,st){Object.defineProperty(F,'other',{value:1,configurable:true})}], ['isFrozen',function(F,st){Object.isFrozen(F);Object.isSealed(F);Object.isExtensible(F)}], ['new',function(F,st){new F}], ['instanceof',function(F,st){({}) instanceof F}], ['propertyIsEnumerable',function(F,st){F.propertyIsEnumerable('prototype')}] ]; function check(tag,F,n,st){ var d=gOPD(F,'prototype'); if(!d){bad.push(tag+':no-prototype');return} if(!('value' in d)||d.value===null||typeof d.value!=='object')bad.push(tag+':prototype-value'); if(d.enumerable!==false)bad.push(tag+':prototype-enumerable'); if(d.configurable!==false)bad.push(tag+':prototype-configurable'); if(d.writable!==!st.frozen)bad.push(tag+':prototype-writable='+d.writable); if(st.P){if(d.value!==st.P)bad.push(tag+':prototype-not-the-installed-object')} else{ var c=d.value&&gOPD(d.value,'constructor'); if(!c||c.value!==F)bad.push(tag+':constructor-link'); else if(c.enumerable!==false||c.writable!==true||c.configurable!==true)bad.push(tag+':constructor-attrs'); if(d.value&&Object.getPrototypeOf(d.value)!==Object.prototype)bad.push(tag+':prototype-proto'); } var l=gOPD(F,'length'); if(!l||l.value!==n||l.writable||l.enumerable||l.configurable)bad.push(tag+':length'); try{var i=new F;if(!(i instanceof F))bad.push(tag+':instanceof');if(Object.getPrototypeOf(i)!==d.value)bad.push(tag+':instance-proto')}catch(e){bad.push(tag+':new-threw-'+e.name)} if(Object.getPrototypeOf(F)!==Function.prototype)bad.push(tag+':fn-proto'); if(F.prototype!==d.value)bad.push(tag+':get-differs'); } var count=0; var pairMakers=[0,2,4,6]; for(var pm=0;pm<pairMakers.length;pm++)for(var i=0;i<ops.length;i++)for(var j=0;j<ops.length;j++){var m=pairMakers[pm]; if(i===j)continue; var F=makers[m][1](),st={frozen:false,P:null},tag=makers[m][0]+'>'+ops[i][0]+'>'+ops[j][0]; try{ops[i][1](F,st)}catch(e){if(!(e instanceof TypeError))bad.push(tag+':op1-threw-'+e.name)} try{ops[j][1](F,st)}catch(e){if(!(e instanceof TypeError))bad.push(tag+':op2-threw-'+e.name)} check(tag,F,makers[m][2],st);count++; } for(var m=0;m<makers.length;m++)for(var i=0;i<ops.length;i++){ var F=makers[m][1](),st={frozen:false,P:null},tag=makers[m][0]+'>'+ops[i][0]; try{ops[i][1](F,st)}catch(e){if(!(e instanceof TypeError))bad.push(tag+':op1-threw-'+e.name)} check(tag,F,makers[m][2],st);count++; } return count+' sequences; failing: '+bad.slice(0,12).join(' ')+(bad.length>12?' ... '+bad.length:''); })()"
+    "1700 sequences; failing: ";
+  P "own:bind.targets"
+    "(function(){ var gOPD=Object.getOwnPropertyDescriptor, bad=[]; function sf(a,b){} var lit={get x(){return 1},set x(v){}}; var targets=[['script',sf],['expr',function(){}],['Function()',Function('a','')],['Math.max',Math.max],['parseInt',parseInt],['eval',eval], ['bound',sf.bind(null)],['bound.bound',sf.bind(null,1).bind(null)],['Function.prototype',Function.prototype], ['Function.prototype.call',Function.prototype.call],['Function.prototype.bind',Function.prototype.bind], ['Object',Object],['Function',Function],['Array',Array],['String',String],['Boolean',Boolean],['Number',Number],['Date',Date],['RegExp',RegExp], ['Error',Error],['EvalError',EvalError],['RangeError',RangeError],['ReferenceError',ReferenceError],['SyntaxError',SyntaxError],['TypeError',TypeError],['URIError',URIError], ['getter',gOPD(lit,'x').get],['setter',gOPD(lit,'x').set],['Object.prototype.toString',Object.prototype.toString],['JSON.parse',JSON.parse],['Date.prototype.getTime',Date.prototype.getTime]]; var cd=gOPD(sf,'caller'); if(cd&&typeof cd.get==='function')targets.push(['caller-getter',cd.get]); for(var i=0;i<targets.length;i++){ var tag=targets[i][0],t=targets[i][1],variants=[function(){return t.bind()},function(){return t.bind(null)},function(){return t.bind({},1,2)},function(){return Function.prototype.bind.call(t,null)},function(){return Function.prototype.bind.apply(t,[null,1])}]; for(var v=0;v<variants.length;v++){ var b;try{b=variants[v]()}catch(e){bad.push(tag+'#'+v+':bind-threw-'+e.name);continue} if(typeof b!=='function')bad.push(tag+'#'+v+':typeof'); if(Object.prototype.toString.call(b)!=='[object Function]')bad.push(tag+'#'+v+':class'); if(Object.getPrototypeOf(b)!==Function.prototype)bad.push(tag+'#'+v+':proto'); if(!(b instanceof Function))bad.push(tag+'#'+v+':instanceof'); if(b.constructor!==Function)bad.push(tag+'#'+v+':constructor'); if(typeof b.call!=='function'||typeof b.apply!=='function'||typeof b.bind!=='function')bad.push(tag+'#'+v+':methods'); if(b.call!==Function.prototype.call)bad.push(tag+'#'+v+':call-identity'); if(!Object.isExtensible(b))bad.push(tag+'#'+v+':extensible'); var l=gOPD(b,'length');if(!l||typeof l.value!=='number'||l.value<0||l.writable||l.enumerable||l.configurable)bad.push(tag+'#'+v+':length'); } } var noop=Function.prototype.bind(null); try{if(noop()!==undefined||noop.call(null,1)!==undefined||noop.apply(null,[1])!==undefined)bad.push('noop:result')}catch(e){bad.push('noop:threw-'+e.name)} return (targets.length>=31)+'; failing: '+bad.slice(0,12).join(' ')+(bad.length>12?' ... '+bad.length:''); })()"
+    "true; failing: ";
+  P "own:reachable.functions"
+    "(function(){ var gOPD=Object.getOwnPropertyDescriptor, bad=[], seen=0; function own(tag,g){ seen++; if(typeof g!=='function'){bad.push(tag+':not-a-function');return} if(Object.getPrototypeOf(g)!==Function.prototype)bad.push(tag+':proto-is-not-this-runtimes-Function.prototype'); if(!(g instanceof Function))bad.push(tag+':instanceof'); if(g.constructor!==Function)bad.push(tag+':constructor'); if(g.call!==Function.prototype.call)bad.push(tag+':call'); if(Object.prototype.toString.call(g)!=='[object Function]')bad.push(tag+':class'); } function sf(a){} var lit={get x(){return 1},set x(v){}}; var fns=[['script',sf],['expr',function(){}],['Function()',Function('')],['bound',sf.bind(null)],['bound.native',Math.max.bind(null)],['bound.bound',sf.bind(null).bind(null)], ['noop',Function.prototype.bind(null)],['getter',gOPD(lit,'x').get],['setter',gOPD(lit,'x').set],['callee',(function(){return arguments.callee})()]]; for(var i=0;i<fns.length;i++){ var tag=fns[i][0],f=fns[i][1]; own(tag,f); var names=['caller','arguments']; for(var k=0;k<names.length;k++){ var d=gOPD(f,names[k]); if(d&&!('value' in d)){ if(d.get!==undefined)own(tag+'.'+names[k]+'.get',d.get); if(d.set!==undefined)own(tag+'.'+names[k]+'.set',d.set); if(tag.indexOf('bound')===0||tag==='noop'){ try{f[names[k]];bad.push(tag+'.'+names[k]+':get-did-not-throw')}catch(e){ if(!(e instanceof TypeError)||Object.getPrototypeOf(e)!==TypeError.prototype)bad.push(tag+'.'+names[k]+':thrown-error-is-not-this-runtimes-TypeError')} } } } var p=gOPD(f,'prototype'); if(p&&p.value){ if(Object.getPrototypeOf(p.value)!==Object.prototype)bad.push(tag+'.prototype:proto'); if(!(p.value instanceof Object))bad.push(tag+'.prototype:instanceof'); var c=gOPD(p.value,'constructor');if(c&&c.value!==f)bad.push(tag+'.prototype.constructor'); if(p.value.hasOwnProperty!==Object.prototype.hasOwnProperty)bad.push(tag+'.prototype:methods'); } } var a=(function(){return arguments})(1); if(Object.getPrototypeOf(a)!==Object.prototype)bad.push('arguments:proto'); var e1;try{null.x}catch(e){e1=e} if(Object.getPrototypeOf(e1)!==TypeError.prototype)bad.push('raised:proto'); var sd=gOPD(e1,'stack');if(sd&&!('value' in sd)&&sd.get!==undefined)own('raised.stack.get',sd.get); var sd2=gOPD(new Error('m'),'stack');if(sd2&&!('value' in sd2)&&sd2.get!==undefined)own('constructed.stack.get',sd2.get); return (seen>=10)+'; failing: '+bad.slice(0,12).join(' ')+(bad.length>12?' ... '+bad.length:''); })()"
+    "true; failing: "
+].
+
 Definition all_probes : list probe :=
   (probes ++ ext_probes ++ kind_probes ++ regression_probes ++ intrinsic_probes ++
-   function_probes ++ cross_probes)%list.
+   function_probes ++ cross_probes ++ ownership_probes)%list.
 
 (* the standard objects that must have a kind probe *)
 Definition kind_required : list string :=
